@@ -43,7 +43,7 @@ inductive PRes (α : Type) where
   | ok (a : α) (rest : Bytes)
   | err (e : PErr)
   | panic (site : String)
-  deriving Repr
+  deriving Repr, DecidableEq
 
 /-- `packet::header::Header` -/
 inductive Hdr
@@ -184,7 +184,7 @@ inductive RdStep
   /-- `Some(Err(error))`, buffer afterwards (`self.raw_bytes.clear()`) -/
   | dropped (e : PErr) (rest : Bytes)
   | panic (site : String)
-  deriving Repr
+  deriving Repr, DecidableEq
 
 def PacketReader.next (bs : Bytes) (dcidLen : Nat) : RdStep :=
   if bs.isEmpty then .eof else
@@ -195,7 +195,7 @@ def PacketReader.next (bs : Bytes) (dcidLen : Nat) : RdStep :=
 
 /-- What a `for x in PacketReader::new(bs, dcidLen)` loop sees, item by item. -/
 inductive Item | pkt (p : Packet) | err (e : PErr) | panic (site : String) | outOfFuel
-  deriving Repr
+  deriving Repr, DecidableEq
 
 /-- the iterator driven `fuel` times -/
 def PacketReader.run : Nat → Bytes → Nat → List Item
@@ -274,7 +274,7 @@ inductive Demux
   /-- `deliver_forward_packet`: `pkt.split_off(encoding_size)` delivered as QUIC; `hdrLen` = bytes `be_header` consumed -/
   | forward (src dst : Endpoint) (hdrLen : Nat) (inner : Bytes)
   | panic (site : String)
-  deriving Repr
+  deriving Repr, DecidableEq
 
 def demux (bs : Bytes) : Demux :=
   match tHeader bs with
